@@ -10,6 +10,7 @@ import (
 	"crypto/x509/pkix"
 	"encoding/asn1"
 	"encoding/json"
+	"encoding/pem"
 	"fmt"
 	"math/big"
 	"net"
@@ -218,16 +219,9 @@ func runPKIX(pc *pkixCase, maxOrders int) (pkixObs, error) {
 		}
 	}
 	sort.Ints(pc.Inters)
-	for _, order := range perms(pc.Inters, maxOrders) {
+	for oi, order := range perms(pc.Inters, maxOrders) {
 		roots := x509.NewCertPool()
-		for _, r := range pc.Roots {
-			roots.AddCert(certs[r])
-		}
 		inter := x509.NewCertPool()
-		for _, i := range order {
-			inter.AddCert(certs[i])
-		}
-		opts := x509.VerifyOptions{Roots: roots, Intermediates: inter, CurrentTime: day(pc.Q.Time).Add(time.Hour), DNSName: pc.Q.Name, KeyUsages: usages}
 		var res struct {
 			Order  []int   `json:"order"`
 			OK     bool    `json:"ok"`
@@ -236,6 +230,12 @@ func runPKIX(pc *pkixCase, maxOrders int) (pkixObs, error) {
 			Panic  string  `json:"panic"`
 		}
 		res.Order = order
+		if p := recoverStr(func() { buildPools10(oi, pc.Roots, order, certs, roots, inter) }); p != "" {
+			res.Panic = "while the pools were filled: " + p
+			o.Orders = append(o.Orders, res)
+			continue
+		}
+		opts := x509.VerifyOptions{Roots: roots, Intermediates: inter, CurrentTime: day(pc.Q.Time).Add(time.Hour), DNSName: pc.Q.Name, KeyUsages: usages}
 		res.Panic = recoverStr(func() {
 			chains, err := certs[pc.Leaf].Verify(opts)
 			res.OK = err == nil
@@ -253,6 +253,39 @@ func runPKIX(pc *pkixCase, maxOrders int) (pkixObs, error) {
 		o.Orders = append(o.Orders, res)
 	}
 	return o, nil
+}
+
+// even orders: AddCert one by one; odd orders: PEM bundles in which the first certificate appears twice and the last one is
+// already in the pool (a pool is a set: duplicates must change nothing)
+func buildPools10(oi int, rootIDs, order []int, certs map[int]*x509.Certificate, roots, inter *x509.CertPool) {
+	if oi%2 == 0 {
+		for _, r := range rootIDs {
+			roots.AddCert(certs[r])
+		}
+		for _, i := range order {
+			inter.AddCert(certs[i])
+		}
+		return
+	}
+	bundle := func(ids []int) []byte {
+		var b []byte
+		for k, i := range ids {
+			blk := pem.EncodeToMemory(&pem.Block{Type: "CERTIFICATE", Bytes: certs[i].Raw})
+			b = append(b, blk...)
+			if k == 0 {
+				b = append(b, blk...)
+			}
+		}
+		return b
+	}
+	if len(rootIDs) > 0 {
+		roots.AddCert(certs[rootIDs[len(rootIDs)-1]])
+		roots.AppendCertsFromPEM(bundle(rootIDs))
+	}
+	if len(order) > 0 {
+		inter.AddCert(certs[order[len(order)-1]])
+		inter.AppendCertsFromPEM(bundle(order))
+	}
 }
 
 // c10-run <cases.ndjson> <obs.ndjson> <max-orders>
